@@ -167,6 +167,25 @@ def job(cfg):
                             r, m, dt = query(p['pc'], noovf + [z3.Not(okp)])
                             count('C17', r if r in ('unsat', 'sat') else 'unknown', dt)
                             if r == 'sat': res['findings'].append(finding(fname, 'C17', 'Q_ptr', '%s: pointer for array %s is not buffer(%s) + offset*elementsize' % (ev.name, arr, mname), m, sc, mask, key='%s:%s:pointer' % (fname, mname)))
+                # Q_ld / Q_def: documented defaults of omitted keywords
+                if cfg.get('scenario') != 'base':
+                    check_documented_defaults(fname, 'C17', p, sc, mask, a, {arr: mname for arr, (mname, off) in arrays.items()}, query, noovf, count, res,
+                                              first_event=(ev is p['events'][0]))
+                # Q_scal: gemv / gbmv replace the routine by y := beta*y when A has no columns (rows): the vector scaled has the length of y
+                if fname in ('gemv', 'gbmv') and base == 'scal' and 'N' in a:
+                    try:
+                        env = _Env(sc, p['mem'])
+                        mloc, nloc = env.flag('m'), env.flag('n')
+                        want = z3.If(env.flag('trans') == _N, mloc, nloc)
+                        bad = [a['N'] != want]
+                        r, m, dt = query(p['pc'], noovf + bad)
+                        count('C17', r if r in ('unsat', 'sat') else 'unknown', dt)
+                        if r == 'sat':
+                            r2, m2, _ = query(p['pc'], noovf + bad + [z3.And(M2.nrows <= 4, M2.ncols <= 4) for M2 in sc.mats.values()] + [want >= 2, want <= 3])
+                            if r2 == 'sat': m = m2
+                            res['findings'].append(finding(fname, 'C17', 'Q_scal', '%s: y := beta*y for an empty A scales a vector whose length is not the length of y' % fname, m, sc, mask,
+                                                           key='%s:empty-A-scaling' % fname, diff={'scaled': 'y', 'count': model_int(m, want), 'module': 'blas'}))
+                    except KeyError: pass
                 # Q_wrap (bounded sizes so that a model is a replayable call); once per (wrapper, matrix)
                 small = [z3.And(M2.nrows <= 64, M2.ncols <= 64) for M2 in sc.mats.values()]
                 for arr, mname, ok, okp in per:
@@ -190,6 +209,136 @@ def job(cfg):
     res['wall'] = round(time.time() - t0, 1)
     return res
 
+# ---- documented defaults (transcribed from the docstrings / doc/source/blas.rst): dimension keywords that are omitted (negative)
+_N, _L = ord('N'), ord('L')
+DEFAULT_DIMS = {
+    'gemm': {'m': lambda e: e.ite(e.flag('transA') == _N, e.rows('A'), e.cols('A')), 'n': lambda e: e.ite(e.flag('transB') == _N, e.cols('B'), e.rows('B')),
+             'k': lambda e: e.ite(e.flag('transA') == _N, e.cols('A'), e.rows('A'))},
+    'syrk': {'n': lambda e: e.ite(e.flag('trans') == _N, e.rows('A'), e.cols('A')), 'k': lambda e: e.ite(e.flag('trans') == _N, e.cols('A'), e.rows('A'))},
+    'trmm': {'m': lambda e: e.ite(e.flag('side') == _L, e.rows('A'), e.rows('B')), 'n': lambda e: e.ite(e.flag('side') == _L, e.cols('B'), e.rows('A'))},
+}
+DEFAULT_DIMS['herk'] = DEFAULT_DIMS['syrk']; DEFAULT_DIMS['syr2k'] = DEFAULT_DIMS['syrk']; DEFAULT_DIMS['her2k'] = DEFAULT_DIMS['syrk']
+DEFAULT_DIMS['trsm'] = DEFAULT_DIMS['trmm']
+
+class _Env(object):
+    def __init__(self, sc, mem):
+        self.sc, self.mem = sc, mem
+    def ite(self, c, a, b):
+        import z3
+        return z3.If(c, a, b)
+    def flag(self, nm):
+        import z3
+        from vp.llsym.exec import is_conc
+        v = self.mem.get(('a:%' + nm, 0))
+        if v is None: raise KeyError(nm)
+        return z3.IntVal(v) if is_conc(v) else v
+    def rows(self, nm): return self.sc.mats[nm].nrows
+    def cols(self, nm): return self.sc.mats[nm].ncols
+
+def kw_value(sc, nm):
+    import z3
+    if nm not in sc.kw or sc.kw[nm][0] != 'i': return None
+    _, g, v, cur = sc.kw[nm]
+    if isinstance(g, bool): return v
+    return z3.If(g, v, z3.IntVal(cur) if isinstance(cur, int) else cur)
+
+def model_int(m, t):
+    import z3
+    try:
+        v = m.eval(t, model_completion=True)
+        return v.as_long() if z3.is_int_value(v) else None
+    except Exception: return None
+
+DEFAULT_PATHS = 12
+def _budget(res, key):
+    """the default of an omitted keyword is computed in the straight-line prefix of a wrapper, before the error-exit chain of the
+    buffer checks fans out: the obligation is decided on the first DEFAULT_PATHS accepted paths of each (wrapper, scenario, keyword)
+    (stated bound) instead of on each of the thousands of paths that share that prefix"""
+    d = res.setdefault('_defcount', {})
+    d[key] = d.get(key, 0) + 1
+    return d[key] <= DEFAULT_PATHS
+
+_SLICE_CACHE = {}
+def sliced_unsat(key, hyps_all, bad, timeout_ms=10000):
+    """is `bad` refuted already by the cone of influence of its variables inside hyps_all?  (sound: a subset of the hypotheses.)
+    The refuting subset is remembered per key (ids of the terms involved) and reused on every later path whose hypotheses
+    contain it - the defaults are computed in the common prefix of a wrapper's paths, so one solver call serves thousands"""
+    import z3
+    def consts_of(f):       # uninterpreted constants of a formula (no global cache: nothing is kept alive)
+        out = set(); seen = set(); work = [f]
+        while work:
+            t = work.pop()
+            i = t.get_id()
+            if i in seen: continue
+            seen.add(i)
+            if z3.is_const(t) and t.decl().kind() == z3.Z3_OP_UNINTERPRETED: out.add(t.decl().name())
+            else: work.extend(t.children())
+        return out
+    ids = set(f.get_id() for f in hyps_all)
+    ent = _SLICE_CACHE.get(key)
+    if ent is not None and ent[0] <= ids: return True
+    want = set()
+    for f in bad: want |= consts_of(f)
+    rest = [(f, consts_of(f)) for f in hyps_all]
+    hyps = []
+    changed = True
+    while changed:
+        changed = False
+        keep = []
+        for f, cs in rest:
+            if cs & want:
+                hyps.append(f); want |= cs; changed = True
+            else: keep.append((f, cs))
+        rest = keep
+    s_ = z3.Solver(); s_.set('timeout', timeout_ms)
+    for f in hyps + list(bad): s_.add(f)
+    if s_.check() == z3.unsat:
+        _SLICE_CACHE[key] = (frozenset(f.get_id() for f in hyps), hyps)      # the terms are kept alive: ids are recycled otherwise
+        return True
+    return False
+
+def check_documented_defaults(fname, prop, p, sc, mask, a, arrays, query, noovf, count, res, module='blas', first_event=True):
+    """Q_ld: an omitted leading dimension (0) reaches the routine as max(1, <matrix>.size[0]);
+    Q_def: an omitted dimension keyword (negative) gets its documented default (tables above, blas level 3).
+    a: formal -> term of the call event; arrays: formal -> matrix name (only arrays that are the caller's buffers)"""
+    import z3
+    from vp.llsym.exec import is_conc
+    small = [z3.And(M2.nrows >= 2, M2.ncols >= 2, M2.nrows <= 4, M2.ncols <= 4) for M2 in sc.mats.values()]
+    for arr, mname in arrays.items():
+        ldf, kwn = 'LD' + arr, 'ld' + mname
+        kv = kw_value(sc, kwn)
+        if ldf not in a or kv is None or mname not in sc.mats: continue
+        M = sc.mats[mname]
+        want = z3.If(M.nrows >= 1, M.nrows, z3.IntVal(1))
+        bad = [kv == 0, a[ldf] != want]
+        if not _budget(res, ('ld', kwn)): continue
+        r, m, dt = query(p['pc'], noovf + bad)
+        count(prop, r if r in ('unsat', 'sat') else 'unknown', dt)
+        if r == 'sat':
+            hints = [a[x] >= 2 for x in ('N', 'M', 'NRHS') if x in a]
+            r2, m2, _ = query(p['pc'], noovf + bad + small + hints)
+            if r2 != 'sat': r2, m2, _ = query(p['pc'], noovf + bad + small)
+            if r2 == 'sat': m = m2
+            res['findings'].append(finding(fname, prop, 'Q_ld', '%s: with %s omitted the routine gets a leading dimension different from the documented default max(1, %s.size[0])' % (fname, kwn, mname),
+                                           m, sc, mask, key='%s:%s:default' % (fname, kwn), diff={'kw': kwn, 'value': model_int(m, want), 'module': module}))
+    if first_event and fname in DEFAULT_DIMS:
+        env = _Env(sc, p['mem'])
+        for dim, fdef in DEFAULT_DIMS[fname].items():
+            kv = kw_value(sc, dim); loc = p['mem'].get(('a:%' + dim, 0))
+            if kv is None or loc is None: continue
+            try: want = fdef(env)
+            except KeyError: continue
+            loc = z3.IntVal(loc) if is_conc(loc) else loc
+            bad = [kv < 0, loc != want]
+            if not _budget(res, ('def', dim)): continue
+            r, m, dt = query(p['pc'], noovf + bad)
+            count(prop, r if r in ('unsat', 'sat') else 'unknown', dt)
+            if r == 'sat':
+                r2, m2, _ = query(p['pc'], noovf + bad + [z3.And(M2.nrows >= 1, M2.ncols >= 1, M2.nrows <= 4, M2.ncols <= 4) for M2 in sc.mats.values()])
+                if r2 == 'sat': m = m2
+                res['findings'].append(finding(fname, prop, 'Q_def', '%s: with %s omitted the wrapper does not use the documented default dimension' % (fname, dim),
+                                               m, sc, mask, key='%s:%s:default' % (fname, dim), diff={'kw': dim, 'value': model_int(m, want), 'module': module}))
+
 BASE_WRAPPERS = ('base_gemm', 'base_gemv', 'base_syrk', 'base_symv', 'base_axpy')
 QUICK = {  # wrapper -> locals whose vanishing makes the reference operation a no-op ('any' of them == 0 / <= 0)
     'swap': ['n'], 'scal': ['n'], 'copy': ['n'], 'axpy': ['n'], 'dot': ['n'], 'dotu': ['n'], 'nrm2': ['n'], 'asum': ['n'], 'iamax': ['n'],
@@ -209,8 +358,8 @@ def quick_return_condition(fname, mem):
         terms.append((z3.IntVal(v) if is_conc(v) else v) <= 0)
     return z3.Or(*terms)
 
-def finding(fname, prop, kind, text, model, sc, mask, key=None):
-    return {'fn': fname, 'prop': prop, 'kind': kind, 'text': text, 'key': key or ('%s:%s' % (fname, kind)), 'call': sc.render_call(fname, model), 'mask': mask}
+def finding(fname, prop, kind, text, model, sc, mask, key=None, diff=None):
+    return {'fn': fname, 'prop': prop, 'kind': kind, 'text': text, 'key': key or ('%s:%s' % (fname, kind)), 'call': sc.render_call(fname, model), 'mask': mask, 'diff': diff}
 
 from vp.llsym.scen_wrap import WrapScenario
 class MaskScenario(WrapScenario):
@@ -318,8 +467,69 @@ def replay_call(callspec, timeout=300):
         return 'fatal signal (rc %d) in %s' % (r.returncode, callspec['call']), None
     return None, 'no memory error observed (%s)' % (r.stdout.strip()[-40:])
 
+DIFF_PROG = r'''
+import sys, json
+from cvxopt import matrix, blas, base, lapack
+spec = json.loads(sys.argv[1]); diff = spec['diff']
+def fresh():
+    ns = {'matrix': matrix, 'blas': blas, 'base': base, 'lapack': lapack}
+    for s in spec['setup']: exec(s, ns)
+    k = 0
+    for nm, v in sorted(ns.items()):
+        if isinstance(v, matrix) and v.typecode in ('d', 'z'):
+            for i in range(len(v)):
+                k += 1; v[i] = (((7*k) % 11) - 5.0) if v.typecode == 'd' else complex(((7*k) % 11) - 5.0, ((3*k) % 7) - 3.0)
+    # a generic symmetric positive definite leading block helps the LAPACK solvers; harmless for BLAS
+    return ns
+def run(call):
+    ns = fresh()
+    try: eval(call, ns); out = 'ok'
+    except (TypeError, ValueError, ArithmeticError) as e: out = 'raises ' + type(e).__name__
+    return out, {nm: list(v) for nm, v in ns.items() if isinstance(v, matrix)}, ns
+call = spec['call']
+if 'kw' in diff:
+    o1, m1, _ = run(call)
+    import re
+    if re.search(r'\\b%s=' % diff['kw'], call): call2 = re.sub(r'\\b%s=-?\\d+' % diff['kw'], '%s=%d' % (diff['kw'], diff['value']), call)
+    else: call2 = call[:-1] + (', ' if not call.endswith('(') else '') + '%s=%d)' % (diff['kw'], diff['value'])
+    o2, m2, _ = run(call2)
+    same = (o1 == o2) and all(len(m1[k]) == len(m2[k]) and all(abs(a - b) <= 1e-9*(1 + abs(b)) for a, b in zip(m1[k], m2[k])) for k in m1)
+    print('RESULT ' + ('same' if same else 'DIFFERENT: omitted -> %s, %s=%d -> %s' % (o1, diff['kw'], diff['value'], o2)))
+else:
+    ns0 = fresh(); y0 = list(ns0[diff['scaled']])
+    o1, m1, ns = run(call)
+    import re
+    def kwv(nm, dflt):
+        m = re.search(r'\b%s=([^,)]+)' % nm, call)
+        return eval(m.group(1)) if m else dflt
+    beta, inc, off = kwv('beta', 0.0), abs(kwv('incy', 1)), kwv('offsety', 0)
+    y1 = m1[diff['scaled']]
+    bad = [i for i in range(diff['count']) if off + i*inc < len(y1) and abs(y1[off + i*inc] - beta*y0[off + i*inc]) > 1e-9*(1 + abs(y0[off + i*inc]))]
+    print('RESULT ' + ('same' if (o1 != 'ok' or not bad) else 'DIFFERENT: y is not beta*y at positions %s' % bad[:4]))
+'''
+
+def replay_diff(callspec, diff, timeout=120):
+    """differential replay on the real build: the call with the keyword omitted against the same call with the documented
+    default passed explicitly (or, for the empty-A case of gemv, against beta*y); returns a description if they differ"""
+    from vp import common
+    if diff is None or (('kw' in diff) and diff.get('value') is None) or (('scaled' in diff) and diff.get('count') is None): return None, 'no concrete default in the model'
+    ov = common.overlay()
+    env = dict(os.environ); env['PYTHONPATH'] = ov; env['OPENBLAS_NUM_THREADS'] = '1'
+    spec = dict(callspec); spec['diff'] = diff
+    try: r = subprocess.run([common.VENV_PY, '-c', DIFF_PROG, json.dumps(spec)], capture_output=True, text=True, timeout=timeout, env=env)
+    except subprocess.TimeoutExpired: return None, 'timed out'
+    out = [l for l in r.stdout.splitlines() if l.startswith('RESULT')]
+    if r.returncode < 0: return 'fatal signal (rc %d) in %s' % (r.returncode, callspec['call']), None
+    if out and out[-1].startswith('RESULT DIFFERENT'): return '%s: %s' % (callspec['call'], out[-1][7:]), None
+    return None, 'no difference observed (%s %s)' % (out[-1] if out else '', r.stderr[-200:])
+
 def replay_main(path):
     d = json.load(open(path))
+    if d.get('diff'):
+        cs = dict(d['call']); cs['call'] = cs['call'].replace('blas.base_', 'base.', 1)
+        rep, why = replay_diff(cs, d['diff'])
+        if rep: print('REPRODUCED on the real build: %s' % rep); return 1
+        print(why); return 0
     cs = dict(d['call']); cs['call'] = cs['call'].replace('blas.base_', 'base.', 1)
     rep, why = replay_call(cs)
     if rep: print('REPRODUCED on the real build: %s' % rep); return 1
@@ -410,12 +620,12 @@ def main(tier, pid='C17', ev=None, src='blas'):
             f = groups[k][0]
             if k in known:
                 known_hits.append((k, known[k]['what'])); continue
-            rp = common.write_replay(pid, k, {'property': pid, 'key': k, 'text': f['text'], 'call': f['call']})
+            rp = common.write_replay(pid, k, {'property': pid, 'key': k, 'text': f['text'], 'call': f['call'], 'diff': f.get('diff')})
             rep, why = (None, 'no call rendered')
             for f2 in groups[k][:3]:
                 if f2['call']:
                     cs = dict(f2['call']); cs['call'] = cs['call'].replace('blas.base_', 'base.', 1)
-                    rep, why = replay_call(cs)
+                    rep, why = replay_diff(cs, f2.get('diff')) if f2['kind'] in ('Q_ld', 'Q_def', 'Q_scal') else replay_call(cs)
                     if rep: break
             if rep: violations.append((k, rp, '%s -> %s' % (f['text'], rep)))
             elif f['kind'] in ('Q_ptr', 'Q_rej', 'Q_zero'):
